@@ -22,7 +22,7 @@ Definition zero_f : nat -> nat -> N := fun _ _ => 0%N.
 
 Definition writable (mn : N) (ops : list opnd) : bool :=
   existsb (fun r => N.eqb (r_op r) mn &&
-                    match read_z80 (r_pat r) 0 zero_f with
+                    match read_z80 (z80_is_io (r_op r)) (r_pat r) 0 zero_f with
                     | Some o => opnds_eqb o ops
                     | None => false
                     end) z80_rows.
